@@ -65,51 +65,49 @@ func tagName(t byte) string {
 	return "other-descriptor"
 }
 
-// sizeClass names a descriptor payload size: exact within limit-2..limit+1 of
-// the three limits of the size field, a range otherwise.
-func sizeClass(n int) string {
+// sizeClass names a descriptor payload size: the exact value within limit-2 ..
+// limit+1 of the three limits of the size field (atLimit), a range otherwise.
+func sizeClass(n int) (class string, atLimit bool) {
 	for _, lim := range []int{1 << 7, 1 << 14, 1 << 21} {
 		if n >= lim-2 && n <= lim+1 {
-			return fmt.Sprintf("%d", n)
+			return fmt.Sprintf("%d", n), true
 		}
 	}
 	switch {
 	case n < 126:
-		return "<126"
+		return "<126", false
 	case n < 1<<14-2:
-		return "130..16381"
+		return "130..16381", false
 	case n < 1<<21-2:
-		return "16386..2097149"
+		return "16386..2097149", false
 	}
-	return ">2097153"
+	return ">2097153", false
+}
+
+func noteSize(c *runner.Ctx, cat, org, what string, payload, digits int) {
+	cl, lim := sizeClass(payload)
+	if lim {
+		c.Seen(cat+"_at_size_field_limit", fmt.Sprintf("%s %s payload=%s size-field-digits=%d", org, what, cl, digits))
+	} else {
+		c.Seen(cat+"_size_class", fmt.Sprintf("%s %s payload %s", org, what, cl))
+	}
 }
 
 // esdsCensus parses the descriptors of one written esds payload (after
-// version/flags). It reports whether the descriptor tree tiles the payload
-// exactly.
+// version/flags) and records size classes, size-field lengths and the flag
+// combination of the ES_Descriptor. It reports whether the descriptor tree
+// tiles the payload exactly; nothing is recorded about descriptors that do not.
 func esdsCensus(c *runner.Ctx, org string, p []byte) (tiles bool) {
 	if len(p) < 4 {
 		return false
 	}
 	p = p[4:]
 	es, ok := readDescriptor(p, 0)
-	if !ok || es.tag != 3 {
+	if !ok || es.tag != 3 || es.body+es.payload != len(p) {
 		return false
 	}
-	note := func(d descriptor) {
-		cl := sizeClass(d.payload)
-		if cl[0] >= '0' && cl[0] <= '9' && cl != "130..16381" && cl != "16386..2097149" {
-			c.Seen("esds_descriptor_at_size_field_limit", fmt.Sprintf("%s %s payload=%s size-field-digits=%d", org, tagName(d.tag), cl, d.digits))
-		} else {
-			c.Seen("esds_descriptor_size_class", fmt.Sprintf("%s %s payload %s", org, tagName(d.tag), cl))
-		}
-	}
-	note(es)
-	tiles = es.body+es.payload == len(p)
-	end := es.body + es.payload
-	if end > len(p) {
-		end = len(p)
-	}
+	seen := []descriptor{es}
+	end := len(p)
 	pos := es.body
 	if pos+3 > end {
 		return false
@@ -138,18 +136,13 @@ func esdsCensus(c *runner.Ctx, org string, p []byte) (tiles bool) {
 	if ocr == 1 {
 		pos += 2
 	}
-	prio := "0"
-	if flags&0x1f != 0 {
-		prio = "nonzero"
-	}
-	c.Seen("es_descriptor_flags", fmt.Sprintf("%s streamDependence=%d URL=%d(len %s) OCRstream=%d priority=%s", org, dep, url, urlClass, ocr, prio))
 	// nested descriptors of the ES_Descriptor, and those of the DecoderConfigDescriptor
 	for pos < end {
 		d, ok := readDescriptor(p[:end], pos)
 		if !ok || d.body+d.payload > end {
 			return false
 		}
-		note(d)
+		seen = append(seen, d)
 		if d.tag == 4 {
 			q, qend := d.body+13, d.body+d.payload
 			for q < qend {
@@ -157,7 +150,7 @@ func esdsCensus(c *runner.Ctx, org string, p []byte) (tiles bool) {
 				if !ok || dd.body+dd.payload > qend {
 					return false
 				}
-				note(dd)
+				seen = append(seen, dd)
 				q = dd.body + dd.payload
 			}
 			if q != qend {
@@ -166,7 +159,18 @@ func esdsCensus(c *runner.Ctx, org string, p []byte) (tiles bool) {
 		}
 		pos = d.body + d.payload
 	}
-	return tiles && pos == end
+	if pos != end {
+		return false
+	}
+	prio := "0"
+	if flags&0x1f != 0 {
+		prio = "nonzero"
+	}
+	c.Seen("es_descriptor_flags_written", fmt.Sprintf("%s streamDependence=%d URL=%d(len %s) OCRstream=%d priority=%s", org, dep, url, urlClass, ocr, prio))
+	for _, d := range seen {
+		noteSize(c, "esds_descriptor_written", org, tagName(d.tag), d.payload, d.digits)
+	}
+	return true
 }
 
 // dec3Census reads num_ind_sub and the substream list of a written dec3
@@ -222,30 +226,75 @@ func census(c *runner.Ctx, s work.Struct, x work.Encodable, nodes []*boxwalk.Nod
 		}
 	}
 	if !s.Decoded {
-		dec3Fields(c, x, 0)
+		apiFields(c, x, 0)
 	}
 }
 
-// dec3Fields records, for API-built structures, how the public fields of every
-// Dec3Box relate: NumIndSub against the number of listed substreams.
-func dec3Fields(c *runner.Ctx, x work.Encodable, depth int) {
-	if d, ok := x.(*mp4.Dec3Box); ok && d != nil {
-		rel := "NumIndSub=len(EC3Subs)-1"
-		switch {
-		case int(d.NumIndSub) == len(d.EC3Subs)-1:
-		case d.NumIndSub == 0:
-			rel = "NumIndSub left 0"
-		default:
-			rel = "NumIndSub other"
+// apiFields records, for API-built structures, the public fields the sizes
+// depend on: for every Dec3Box how NumIndSub relates to the number of listed
+// substreams; for every EsdsBox the flag bits with the dependent fields that
+// are set, and the nominal payload of the three nested descriptors (the
+// 14496-1 layout with the one-digit size fields CreateEsdsBox prescribes: the
+// written size fields of such a box hold the value modulo 128, so the bytes do
+// not tell).
+func apiFields(c *runner.Ctx, x work.Encodable, depth int) {
+	switch v := x.(type) {
+	case *mp4.Dec3Box:
+		dec3Fields(c, v)
+		return
+	case *mp4.EsdsBox:
+		if v == nil || v.DecConfigDescriptor == nil || v.DecConfigDescriptor.DecSpecificInfo == nil {
+			return
 		}
-		n := len(d.EC3Subs)
-		c.Seen("dec3_api_fields", fmt.Sprintf("len(EC3Subs)=%d %s", n, rel))
+		n := len(v.DecConfigDescriptor.DecSpecificInfo.DecConfig)
+		fl := v.FlagsAndPriority
+		extra := 0
+		if fl&0x80 != 0 {
+			extra += 2
+		}
+		if fl&0x40 != 0 {
+			extra += 1 + len(v.URLString)
+		}
+		if fl&0x20 != 0 {
+			extra += 2
+		}
+		sl := 0
+		if v.SLConfigDescriptor != nil {
+			sl = 3 + len(v.SLConfigDescriptor.MoreData)
+		}
+		noteSize(c, "esds_api_nominal_descriptor", "api", "DecoderSpecificInfo", n, 1)
+		noteSize(c, "esds_api_nominal_descriptor", "api", "DecoderConfigDescriptor", 13+2+n, 1)
+		noteSize(c, "esds_api_nominal_descriptor", "api", "ES_Descriptor", 3+extra+2+13+2+n+sl, 1)
+		set := func(b bool) int {
+			if b {
+				return 1
+			}
+			return 0
+		}
+		c.Seen("es_descriptor_api_fields", fmt.Sprintf("flags: streamDependence=%d URL=%d OCRstream=%d; fields set: DependsOnEsID=%d URLString=%d OCResID=%d",
+			fl>>7&1, fl>>6&1, fl>>5&1, set(v.DependsOnEsID != 0), set(v.URLString != ""), set(v.OCResID != 0)))
 		return
 	}
 	if depth > 12 {
 		return
 	}
 	for _, ch := range work.Children(x) {
-		dec3Fields(c, ch, depth+1)
+		apiFields(c, ch, depth+1)
 	}
+}
+
+// dec3Fields: NumIndSub against the number of listed substreams.
+func dec3Fields(c *runner.Ctx, d *mp4.Dec3Box) {
+	if d == nil {
+		return
+	}
+	rel := "NumIndSub=len(EC3Subs)-1"
+	switch {
+	case int(d.NumIndSub) == len(d.EC3Subs)-1:
+	case d.NumIndSub == 0:
+		rel = "NumIndSub left 0"
+	default:
+		rel = "NumIndSub other"
+	}
+	c.Seen("dec3_api_fields", fmt.Sprintf("len(EC3Subs)=%d %s", len(d.EC3Subs), rel))
 }
